@@ -20,7 +20,9 @@ struct w_entry { const char * name; fn2 fn; };
 extern "C" const w_entry w_entries[];
 extern "C" const char * w_cfg();
 
+#if !defined(VERIF_SAN_TRAP) // trap builds link no sanitizer runtime: every failed check is a SIGILL caught by the signal guard
 extern "C" void __ubsan_get_current_report_data(const char ** kind, const char ** msg, const char ** file, unsigned * line, unsigned * col, char ** addr);
+#endif
 extern "C" const char * __asan_get_report_description();
 
 static const char * cur_entry = "";
@@ -29,6 +31,7 @@ static long n_ubsan, n_asan, n_sig, n_calls, n_returned;
 static sigjmp_buf jb;
 static volatile sig_atomic_t armed;
 
+#if !defined(VERIF_SAN_TRAP)
 extern "C" void __ubsan_on_report(void)
   {
   const char * kind = "?", * msg = "", * file = "?"; unsigned line = 0, col = 0; char * addr = nullptr;
@@ -38,6 +41,7 @@ extern "C" void __ubsan_on_report(void)
   printf("EV ubsan entry=%s kind=%s file=%s line=%u col=%u a=%" PRId64 " b=%" PRId64 "\n", cur_entry, kind, base, line, col, (int64_t)cur_a, (int64_t)cur_b);
   fflush(stdout);
   }
+#endif
 #if defined(__SANITIZE_ADDRESS__)
 #define HAVE_ASAN 1
 #elif defined(__has_feature)
